@@ -210,6 +210,9 @@ def _lines(s):
     return s.splitlines(True)
 
 
+EXTRA = [False]      # second values for the remaining edit kinds; switched on while the focused families are generated
+
+
 def source_edits(src):
     """(label, new_source) for one source string."""
     L = _lines(src)
@@ -227,10 +230,17 @@ def source_edits(src):
         # small in-line change (keeps the line similar)
         body = L[i].rstrip('\r\n')
         out.append(('tweak%d' % i, ''.join(L[:i] + [body + '  # note' + term(i)] + L[i + 1:])))
+        if EXTRA[0]:
+            out.append(('tweak%d:b' % i, ''.join(L[:i] + [body + '  # remark' + term(i)] + L[i + 1:])))
         out.append(('del%d' % i, ''.join(L[:i] + L[i + 1:])))
+        if i in (0, 1):
+            # commenting a line out: an in-line change at the very start of the line (the position a line inserted before it also refers to)
+            out.append(('comment%d' % i, ''.join(L[:i] + ['# ' + L[i]] + L[i + 1:])))
     for i in range(min(n, 3) + 1):
         if i < n or (n and L[-1].endswith(('\n', '\r'))) or n == 0:
             out.append(('ins%d' % i, ''.join(L[:i] + ['inserted = True\n'] + L[i:])))
+            if EXTRA[0]:
+                out.append(('ins%d:b' % i, ''.join(L[:i] + ['inserted = False\n'] + L[i:])))
     if src.endswith('\n') or not src:
         out.append(('append-unterminated', src + 'tail'))
         out.append(('append-unterminated:b', src + 'other tail'))
@@ -498,6 +508,10 @@ def outputs_edits(outs):
             for tag, mark in (('tweak', '!'), ('tweak:b', '?')):          # a small change inside the first line: the output stays similar
                 no = cp(o); no['text'] = fl.rstrip('\n') + mark + ('\n' if fl.endswith('\n') else '') + ''.join(o['text'].splitlines(True)[1:])
                 out.append(('stream%d:%s' % (q, tag), O, outs[:q] + [no] + outs[q + 1:]))
+            tl = o['text'].splitlines(True)
+            if len(tl) >= 2:
+                no = cp(o); no['text'] = ''.join(tl[:1] + ['> ' + tl[1]] + tl[2:]); out.append(('stream%d:quote1' % q, O, outs[:q] + [no] + outs[q + 1:]))
+                no = cp(o); no['text'] = ''.join(tl[:1] + ['inserted line\n'] + tl[1:]); out.append(('stream%d:ins1' % q, O, outs[:q] + [no] + outs[q + 1:]))
             no = cp(o); no['text'] = "another first\n" + ''.join(o['text'].splitlines(True)[1:]); out.append(('stream%d:first:b' % q, O, outs[:q] + [no] + outs[q + 1:]))
             no = cp(o); no['text'] = o['text'] + "yet another line\n"; out.append(('stream%d:append:b' % q, O, outs[:q] + [no] + outs[q + 1:]))
         if ot in ('execute_result', 'display_data'):
@@ -549,6 +563,9 @@ def outputs_edits(outs):
             out.append((lab, ('metadata', 'outputs'), outs[:q] + [no] + outs[q + 1:]))
             no = cp(o); no['metadata'] = dict(o['metadata'], width=100)
             out.append(('ometa%d:width' % q, ('metadata', 'outputs'), outs[:q] + [no] + outs[q + 1:]))
+            if EXTRA[0]:
+                no = cp(o); no['metadata'] = dict(o['metadata'], width=200)
+                out.append(('ometa%d:width:b' % q, ('metadata', 'outputs'), outs[:q] + [no] + outs[q + 1:]))
         if ot == 'execute_result':
             no = cp(o); no['execution_count'] = (o['execution_count'] or 0) + 10
             out.append(('oec%d' % q, ('details', 'outputs'), outs[:q] + [no] + outs[q + 1:]))
@@ -557,6 +574,9 @@ def outputs_edits(outs):
         if ot == 'error':
             no = cp(o); no['evalue'] = 'another value'
             out.append(('err%d:evalue' % q, O, outs[:q] + [no] + outs[q + 1:]))
+            if EXTRA[0]:
+                no = cp(o); no['evalue'] = 'a third value'
+                out.append(('err%d:evalue:b' % q, O, outs[:q] + [no] + outs[q + 1:]))
     return out
 
 
@@ -619,10 +639,10 @@ FOCUS = {
     'outputs': ('out@0:stream0:append', 'out@0:stream0:first', 'out@0:data1:plain', 'out@0:data1:png', 'out@0:ometa1:set', 'out@0:ometa1:width',
                 'out@0:oec1', 'out@0:oec1:b', 'out@0:append:Oerr', 'out@0:delete0', 'ec@0:7'),
     # edits that keep the output similar to its base version (so that it is patched, not replaced), each with two values
-    'outsim': ('out@0:stream0:tweak', 'out@0:stream0:tweak:b', 'out@0:stream0:append', 'out@0:stream0:append:b', 'out@0:data1:plain-tweak', 'out@0:data1:plain-tweak:b',
-               'out@0:data1:png', 'out@0:data1:png:b', 'out@0:ometa1:set', 'out@0:oec1', 'out@0:oec1:b'),
-    'source': ('src@0:repl0:a', 'src@0:repl0:b', 'src@0:repl2:a', 'src@0:repl2:b', 'src@0:del1', 'src@0:ins1', 'src@0:tweak1', 'src@0:append-unterminated',
-               'src@0:terminate'),
+    'outsim': ('out@0:stream0:tweak', 'out@0:stream0:tweak:b', 'out@0:stream0:quote1', 'out@0:stream0:ins1', 'out@0:stream0:append', 'out@0:stream0:append:b', 'out@0:data1:plain-tweak', 'out@0:data1:plain-tweak:b',
+               'out@0:data1:png', 'out@0:data1:png:b', 'out@0:ometa1:width', 'out@0:ometa1:width:b', 'out@0:oec1', 'out@0:oec1:b'),
+    'source': ('src@0:repl0:a', 'src@0:repl0:b', 'src@0:repl2:a', 'src@0:repl2:b', 'src@0:del1', 'src@0:ins1', 'src@0:ins1:b', 'src@0:tweak1', 'src@0:tweak1:b', 'src@0:comment1',
+               'src@0:append-unterminated', 'src@0:terminate'),
     'meta': ('cellmeta@2:tags+extra', 'cellmeta@2:tags+other', 'cellmeta@2:collapsed-flip', 'cellmeta@2:custom=a1', 'cellmeta@2:custom=a2', 'cellmeta@2:level-2',
              'nbmeta:kspec-name', 'nbmeta:kspec-name:b', 'nbmeta:tags=new', 'nbmeta:x=lists'),
     'cellmix0': ('ec@0:7', 'out@0:oec1', 'src@0:tweak1', 'src@0:repl2:a', 'cell-delete@0', 'rerun@0', 'cellmeta@0:custom=a1', 'cell-retype@0:raw', 'id@0:renamed'),
@@ -665,6 +685,14 @@ def focus2(seed, field):
     allowed = set(FOCUS[field])
     seen = {canon(seed)}
     out = []
+    EXTRA[0] = True
+    try:
+        return _focus2(seed, allowed, seen, out)
+    finally:
+        EXTRA[0] = False
+
+
+def _focus2(seed, allowed, seen, out):
     first = [(l, t, n) for l, t, n in successors(seed) if l in allowed and valid(n)]
     for l, t, n in first:
         k = canon(n)
